@@ -76,7 +76,7 @@ finally:
     else: subprocess.run(["git", "-C", "/repo", "worktree", "remove", "--force", wt], capture_output=True)
 allc = dict(prev.get("checks_with_change", {})); allc.update(checks); checks = allc
 rec["checks_with_change"] = checks
-rec["detected_by"] = sorted(p for p, c in checks.items() if c["exit"] == 1)
+rec["detected_by"] = sorted(p for p, c in checks.items() if c["exit"] == 1 and any(l.startswith("VIOLATION") for l in c["lines"]))
 shutil.copy(patch, out / "patch.diff"); shutil.copy(demo, out / "demo.py")
 m = json.load(open(meta)) if os.path.exists(meta) else {}
 m.update({"what_was_run": rec})
